@@ -55,3 +55,44 @@ Proof. vm_compute. repeat split; try reflexivity. discriminate. Qed.
 
 Print Assumptions tracing_program_sound.
 Print Assumptions tracing_program_sound_exec.
+
+(* ------------------------------------------------------------------ the stronger protocol: before every test and
+   iteration the carried state is re-injected into a store holding ARBITRARY values on the names the loop body
+   assigns (a backend that traces the body as a function of the carried state alone); nested statements likewise *)
+Require Import MV.Ctrl.TracingProgG.
+
+Theorem tracing_program_sound_reinjected : forall (val : Type) (nl gl : list name) (b : block val) (O : list name)
+    (s t r r' : store val),
+  ok_b val b O -> agree val (live_b val b O) s t ->
+  imp_b val b s r -> gfun_b val nl gl b O t r' -> agree val O r r'.
+Proof. intros val nl gl. exact (proj2 (tracing_program_agrees_g val nl gl)). Qed.
+
+(* non-vacuity of the re-injecting semantics:  while n < 1: n += 1 ; t = 5   with garbage 7 / 9 on n and t *)
+Definition g_body : block nat :=
+  BCons nat (SAtom nat ["n"] ["n"] (fun s z => if String.eqb z "n" then S (s "n") else s z))
+ (BCons nat (SAtom nat [] ["t"] (fun s z => if String.eqb z "t" then 5 else s z)) (BNil nat)).
+Definition g_prog : stmt nat := SWhile nat ["n"] ["n"] (fun s => Nat.ltb (s "n") 1) g_body.
+Definition g_garbage (k : nat) (s : store nat) : store nat :=
+  fun z => if String.eqb z "n" then k else if String.eqb z "t" then k + 1 else s z.
+Example reinjected_nonvacuous :
+  state (ctx_of nat [] [] g_prog ["n"]) = ["n"] /\
+  exists r, gfun_s nat [] [] g_prog ["n"] (fun _ => 0) r /\ r "n" = 1 /\ r "t" = 10.
+Proof.
+  split; [vm_compute; reflexivity|].
+  eexists. split.
+  - unfold g_prog. eapply GWhile.
+    eapply GLoopT with (g := g_garbage 7 (fun _ => 0)).
+    + intros x Hx. unfold g_garbage. cbn in Hx.
+      destruct (String.eqb x "n") eqn:E1; [apply String.eqb_eq in E1; exfalso; apply Hx; auto|].
+      destruct (String.eqb x "t") eqn:E2; [apply String.eqb_eq in E2; exfalso; apply Hx; auto|]. reflexivity.
+    + vm_compute. reflexivity.
+    + unfold g_body. eapply GCons; [apply GAtom|]. eapply GCons; [apply GAtom|]. apply GNil.
+    + eapply GLoopF with (g := g_garbage 9 _).
+      * intros x Hx. unfold g_garbage. cbn in Hx.
+        destruct (String.eqb x "n") eqn:E1; [apply String.eqb_eq in E1; exfalso; apply Hx; auto|].
+        destruct (String.eqb x "t") eqn:E2; [apply String.eqb_eq in E2; exfalso; apply Hx; auto|]. reflexivity.
+      * vm_compute. reflexivity.
+  - vm_compute. split; reflexivity.
+Qed.
+
+Print Assumptions tracing_program_sound_reinjected.
